@@ -34,8 +34,14 @@ func genC06(t *rapid.T) *C06Case {
 	c.PerG = rapid.IntRange(5, 40).Draw(t, "perg")
 	c.Builders = rapid.IntRange(0, 3).Draw(t, "builders")
 	c.Procs = rapid.SampledFrom([]int{2, 4, 16}).Draw(t, "procs")
-	lines := []string{"SecRuleEngine On", "SecRequestBodyAccess On", "SecAuditEngine On", "SecAuditLogParts ABHKZ", "SecAuditLogFormat JSON", "SecAuditLogType Serial",
-		"SecAuditLog " + tmpPlaceholder + "/c06-audit.log"}
+	lines := []string{"SecRuleEngine On", "SecRequestBodyAccess On", "SecAuditEngine On", "SecAuditLogParts ABHKZ", "SecAuditLogFormat JSON"}
+	if rapid.IntRange(0, 2).Draw(t, "auditfault") == 0 {
+		// the concurrent writer with an index file that refuses every write (/dev/full): each transaction's logging
+		// fails, which must neither change outcomes nor leave the writer unusable for the transactions behind it
+		lines = append(lines, "SecAuditLogType Concurrent", "SecAuditLog /dev/full", "SecAuditLogStorageDir "+tmpPlaceholder+"/c06-store")
+	} else {
+		lines = append(lines, "SecAuditLogType Serial", "SecAuditLog "+tmpPlaceholder+"/c06-audit.log")
+	}
 	trs := []string{"lowercase", "urlDecodeUni", "removeNulls", "trim", "compressWhitespace", "htmlEntityDecode"}
 	id := 100
 	n := rapid.IntRange(3, 8).Draw(t, "nrules")
@@ -92,7 +98,20 @@ func genC06(t *rapid.T) *C06Case {
 
 var caseSeq int64
 
+// checkC06 runs the case under a watchdog of its own: with a lock that is never released even the sequential
+// reference transactions wait for ever.
 func checkC06(c *C06Case) Result {
+	done := make(chan Result, 1)
+	go func() { done <- checkC06Body(c) }()
+	select {
+	case r := <-done:
+		return r
+	case <-time.After(150 * time.Second):
+		return Result{Fail: &Failure{Msg: "the case (sequential reference transactions included) did not finish within 150 s: a transaction waits for ever (deadlock)\n" + expandTmp(strings.Join(c.Lines, "\n")), Site: "deadlock"}}
+	}
+}
+
+func checkC06Body(c *C06Case) Result {
 	res := Result{}
 	caseSeq++
 	// record the case before running it: a data race aborts the whole process (halt_on_error)
@@ -235,8 +254,8 @@ func checkC06(c *C06Case) Result {
 	go func() { txwg.Wait(); close(done) }()
 	select {
 	case <-done:
-	case <-time.After(120 * time.Second):
-		res.Fail = &Failure{Msg: "workload did not finish within 120 s (deadlock?)\n" + conf, Site: "deadlock"}
+	case <-time.After(60 * time.Second):
+		res.Fail = &Failure{Msg: "workload did not finish within 60 s (deadlock?)\n" + conf, Site: "deadlock"}
 		close(stop)
 		return res
 	}
@@ -267,6 +286,8 @@ func checkC06(c *C06Case) Result {
 			res.Labels = append(res.Labels, "runtime-target-exclusion")
 		case strings.Contains(l, "@pm"):
 			res.Labels = append(res.Labels, "shared-pm")
+		case strings.Contains(l, "SecAuditLog /dev/full"):
+			res.Labels = append(res.Labels, "audit-index-write-fails")
 		case strings.Contains(l, "ctl:auditLogParts"):
 			res.Labels = append(res.Labels, "ctl-auditLogParts")
 		case strings.Contains(l, "chain"):
